@@ -4,13 +4,13 @@
 # With TESTS=1 the repository's own test suite is run in the worktree first.
 patch=$(readlink -f "$1"); shift
 wt=$(mktemp -d /tmp/mw_XXXXXX)
-git -C /repo worktree add --detach "$wt" HEAD -q || exit 2
+git -C /repo worktree add --detach "$wt" ${REPO_REV:-HEAD} -q || exit 2
 if ! git -C "$wt" apply "$patch"; then echo "PATCH DOES NOT APPLY"; git -C /repo worktree remove --force "$wt"; exit 2; fi
 out=$(mktemp -d /tmp/mwout_XXXXXX)
 if [ -n "$TESTS" ]; then
   (cd "$wt" && PYTHONPATH="$wt" timeout 1500 /venv/bin/python -m pytest -q -p no:cacheprovider -x --deselect tests/test_map_collection.py::test_maps 2>&1 | tail -3)
 fi
-cd /verif
+cd ${VERIF_DIR:-/verif}
 for c in "$@"; do
   MCF_REPO="$wt" PYTHONPATH="$wt" MCF_EVIDENCE_DIR="$out" MCF_REPLAY_DIR="$out/replays" ./check "$c" --tier "${TIER:-quick}" 2>&1 | grep -E 'VIOLATION|sig:|HARNESS|tier=' | cut -c1-220 | head -${LINES_MAX:-8}
 done
